@@ -5,7 +5,8 @@ Driver ops of the "Mem" family (C18). `run` returns `none` for op names it does 
   op <id> memraw G<k> …                                same with an `f` that tells +0 from -0
 
 `ty G<k> (st P0 P1 …)` binds the parameter list, `ty G<k>r (st R0 R1 …)` the result list.
-Answer: `model=<answers>|<log> spec=<answers of f itself>|<class id per call> shape=… coll=…` where
+Answer: `model=<answers>|<log> spec=<answers of f itself>|<class id per call> shape=… coll=…`
+(`memraw`: `direct=<answers of f itself>` instead of `spec=`) where
 <answers> = `(r0_r1…);(…)…` in identity-erased wire form, <log> = `<i>:(args)` for every call `i`
 that reached `f`, the class id of a call is the index of the first call with structurally equal
 arguments, `coll` counts the calls whose hash bucket held an entry that was not Equal.
@@ -144,7 +145,9 @@ def runSeq (s : DState) (raw : Bool) (ps rs : List Ty) (calls : List (List Val))
   let same := fun (a0 a : List Val) => Spec.structEq env PT (.struct (Val.ofList a0)) (.struct (Val.ofList a))
   let specAns := ";".intercalate ((Spec.Mem.answers f calls).map showTuple)
   let ids := ",".intercalate ((Spec.Mem.classIds same calls).map toString)
-  let spec := if raw then "" else s!" spec={specAns}|{ids}"
+  -- for an `f` that does not respect `==` the two clauses of C18 contradict each other: no spec
+  -- verdict, but what `f` itself answers is printed so that the check can count the witnesses
+  let spec := if raw then s!" direct={specAns}" else s!" spec={specAns}|{ids}"
   s!"model={answers}|{log}{spec} shape={shapeName shape} coll={collisions cfg f (Mem.init cfg) calls}"
 
 def run (s : DState) (name : String) (args : List SExp) : Option String :=
